@@ -18,11 +18,11 @@ from e3lib import Drv, rows, row_paths, vtodo, rd, judge, split_mail, shim_event
 
 JOBS = ('silent', 'out3', 'err3', 'alt50', 'big', 'cat')
 EXITS = ('0', '3', 'term', 'kill')
-KNOBS = ('cwd', 'umask', 'shell', 'ifile', 'noorg', 'noatt', 'mailrun', 'att2', 'slowmail', 'mailfail')
+KNOBS = ('cwd', 'umask', 'shell', 'ifile', 'noorg', 'noatt', 'mailrun', 'att2', 'slowmail', 'mailfail', 'nomailer', 'slowpipe')
 # clauses a knob can bear on; routing clauses do not carry the knob in their signature
 KNOB_CLAUSES = ('cwd', 'umask', 'stdin', 'shell', 'mail-unwanted', 'mail-count', 'mail-hdr', 'run-count', 'hang', 'echsx-died')
 # under the slowmail knob (2 s limit, job done at once, mailer busy for 4 s) every clause carries the knob
-ALL_CLAUSES_KNOBS = ('slowmail', 'mailfail')
+ALL_CLAUSES_KNOBS = ('slowmail', 'mailfail', 'nomailer', 'slowpipe')
 SIZES = {'silent': (0, 0), 'out3': (192, 0), 'err3': (0, 192), 'alt50': (1600, 1600), 'big': (204800, 204800)}
 IFILE_TEXT = b''.join(bytes([97 + (i * 5 + i // 64) % 26]) if i % 64 != 63 else b'\n' for i in range(70000))
 
@@ -183,6 +183,10 @@ def run_case(D, d, row, jobm, ex, knob, uid, echsx, shim, rec, job):
            'E3_LOG': os.path.join(d, 'shim.log'), 'PATH': '/usr/bin:/bin'}
     if knob == 'slowmail':
         env['E3_MAILDELAY'] = '4'
+    if knob == 'nomailer':
+        # the mailer cannot be started at all (posix_spawn answers ENOENT): no mail, but the job has run, its status is
+        # journalled, echsx survives and nothing is left behind
+        env['E3_MAILSPAWNFAIL'] = '1'
     if knob == 'mailfail':
         # the mailer takes the message and reports EX_TEMPFAIL: echsx may complain, but the job has run, its
         # status is journalled and nothing is left behind
@@ -190,8 +194,19 @@ def run_case(D, d, row, jobm, ex, knob, uid, echsx, shim, rec, job):
     t0 = int(time.time())
     with open(os.path.join(d, 'req.ics'), 'rb') as fi, open(os.path.join(d, 'journal'), 'wb') as fo, \
             open(os.path.join(d, 'echsx.err'), 'wb') as fe:
-        p = subprocess.Popen([echsx, '-v'], stdin=fi, stdout=fo, stderr=fe, cwd=os.path.join(d, 'run'), env=env,
-                             umask=0o022, start_new_session=True)
+        p = subprocess.Popen([echsx, '-v'], stdin=subprocess.PIPE if knob == 'slowpipe' else fi, stdout=fo, stderr=fe,
+                             cwd=os.path.join(d, 'run'), env=env, umask=0o022, start_new_session=True)
+        if knob == 'slowpipe':
+            # the request arrives the way a busy daemon sends a big one: in two writes with a pause in between
+            data = fi.read()
+            cut = max(1, data.find(b'X-ECHS-MAIL-OUT'))
+            try:
+                p.stdin.write(data[:cut]); p.stdin.flush()
+                time.sleep(0.4)
+                p.stdin.write(data[cut:]); p.stdin.flush()
+                p.stdin.close()
+            except OSError:
+                pass
         try:
             rc = p.wait(timeout=D.case_timeout)
         except subprocess.TimeoutExpired:
@@ -242,8 +257,8 @@ def run_case(D, d, row, jobm, ex, knob, uid, echsx, shim, rec, job):
     status = {'0': ('exit', 0), '3': ('exit', 3), 'term': ('signal', 15), 'kill': ('signal', 9)}[ex]
     mailsel = row['mo'] or row['me'] or knob == 'mailrun'
     exp = {'row': row, 'out': out or b'', 'err': err or b'', 'cmd': cmd, 'uid': uidtxt, 'status': status,
-           'mail': bool(mailsel and knob not in ('noorg', 'noatt')),
-           'nomail_why': 'no ORGANIZER' if knob == 'noorg' else 'no ATTENDEE' if knob == 'noatt' else 'nothing selected',
+           'mail': bool(mailsel and knob not in ('noorg', 'noatt', 'nomailer')),
+           'nomail_why': 'no ORGANIZER' if knob == 'noorg' else 'no ATTENDEE' if knob == 'noatt' else 'the mailer cannot be started' if knob == 'nomailer' else 'nothing selected',
            'org': ORG, 'att': k.get('att', [ATT]), 'want_count': 1,
            'want_cwd': want_cwd, 'want_umask': want_umask, 'want_stdin': want_stdin, 'want_shell': want_shell}
     # the job alphabet itself: did the job write what its mode says (guards the harness, not echsx)
